@@ -106,8 +106,11 @@ def pieceOf (kind f a : String) : Option (String × List Char) := do
 
 /-- what the model embeds of the constants of the code (op `consts`) -/
 def constsLine : String :=
-  "buff_fits=" ++ (if max cfgNow.expMax 1 + cfgNow.fracMax + 7 ≤ cfgNow.size then "1" else "0") ++ " FRAC_MAX=" ++ toString cfgNow.fracMax ++ " EXP_MAX=" ++ toString cfgNow.expMax ++
-  " PREC_DEFAULT=6 sizeof_DOUBLE=8 sizeof_int=4 ops=1,2,4,8,16,32,16384,8192 sizeof_long_double=16"
+  "buff_fits=" ++ (if max cfgNow.expMax 1 + cfgNow.fracMax + 7 ≤ cfgNow.size then "1" else "0") ++ " FRAC_MAX=" ++ toString cfgNow.fracMax ++
+  -- round 3b: EXP_MAX (enters `buff_fits`; not observable over binary64 while it is ≥ 3) and the internal numbering of
+  -- the OPS_ flag bits are not fixed by the property: the harness reports them as tags; the flag word of a `pfd` op is
+  -- in the op line's own encoding (`opsOfMask`), translated to the library's bits by the harness
+  " PREC_DEFAULT=6 sizeof_DOUBLE=8 sizeof_int=4 sizeof_long_double=16"
 
 def opsOfMask (m : Nat) : Igris.C06.Ops :=
   { left := m % 2 = 1, sign := (m / 2) % 2 = 1, space := (m / 4) % 2 = 1, spec := (m / 8) % 2 = 1,
@@ -190,4 +193,33 @@ def stepLine (_ : Unit) (line : String) : Unit × String :=
     | _ => none
   ((), r.getD "bad-op")
 
-def main : IO Unit := run () stepLine
+/-! Round 3b: the ops of C13 are stateless (`stepLine` has no state), and the exact-rational software binary64 makes
+one `pf` op cost 1-4 ms: the lines are evaluated by `WORKERS` tasks (line i by task i mod WORKERS, so that the
+expensive op kinds are spread evenly) and printed in the order read.  A short input (a replay) is evaluated
+sequentially.  The function applied to a line is `stepLine` in both cases. -/
+def WORKERS : Nat := 8
+
+partial def readAll (h : IO.FS.Stream) (acc : Array String) : IO (Array String) := do
+  let line ← h.getLine
+  if line.isEmpty then return acc else readAll h (acc.push line)
+
+def workerOf (lines : Array String) (w : Nat) : Array String := Id.run do
+  let mut out : Array String := Array.mkEmpty (lines.size / WORKERS + 1)
+  let mut j := w
+  while j < lines.size do
+    out := out.push (stepLine () lines[j]!).2
+    j := j + WORKERS
+  return out
+
+def main : IO Unit := do
+  let i ← IO.getStdin
+  let o ← IO.getStdout
+  let lines ← readAll i #[]
+  if lines.size < 64 then
+    for l in lines do o.putStrLn (stepLine () l).2
+  else
+    let tasks := (List.range WORKERS).map fun w => Task.spawn fun _ => workerOf lines w
+    let res : Array (Array String) := (tasks.map Task.get).toArray
+    for k in [0:lines.size] do
+      o.putStrLn ((res[k % WORKERS]!)[k / WORKERS]!)
+  o.flush
